@@ -101,6 +101,20 @@ func (ip *IPv4) getIPv4OptionSize() uint8 {
 // SerializeTo writes the serialized form of this layer into the
 // SerializationBuffer, implementing gopacket.SerializableLayer.
 func (ip *IPv4) SerializeTo(b gopacket.SerializeBuffer, opts gopacket.SerializeOptions) error {
+	// IHL is a 4 bit field: a header carries at most 40 bytes of options. Refuse
+	// longer lists here; getIPv4OptionSize computes in uint8 and would wrap, after
+	// which the option loop below writes past the header or panics.
+	optionBytes := 0
+	for _, opt := range ip.Options {
+		if opt.OptionType == 0 || opt.OptionType == 1 {
+			optionBytes++
+		} else {
+			optionBytes += int(opt.OptionLength)
+		}
+	}
+	if optionBytes > 40 {
+		return fmt.Errorf("IPv4 options take %d bytes, more than the 40 a header can hold", optionBytes)
+	}
 	optionLength := ip.getIPv4OptionSize()
 	bytes, err := b.PrependBytes(20 + int(optionLength))
 	if err != nil {
